@@ -270,6 +270,32 @@ pub fn c08_schedules(ctx: &Ctx, out: &mut RunOut) -> Result<(), Violation> {
             _ => "image-fault-corrupted",
         });
     }
+    // load_filtered with a keep-everything filter takes the other branch of the parallel closure
+    // and must give the same document (real file source)
+    {
+        fn keep(id: (u32, u16), o: &mut sim::lopdf::Object) -> Option<((u32, u16), sim::lopdf::Object)> {
+            Some((id, o.clone()))
+        }
+        let img = &images[0].0;
+        let path = scratch_dir().join(format!("c08-{}.pdf", std::process::id()));
+        if std::fs::write(&path, img).is_ok() {
+            ctx.set_sched(SchedPolicy::Random);
+            let reference = guarded("load_mem(seq)", || seq::load_outcome(img))?;
+            let o = guarded("load_filtered", || sim::lopdf::Document::load_filtered(&path, keep))?;
+            let o = match &o {
+                Ok(d) => Ok(sim::full_digest(d)),
+                Err(e) => Err(format!("{:?}", e)),
+            };
+            let _ = std::fs::remove_file(&path);
+            ctx.count("load-filtered-keep-all");
+            if o != reference {
+                return Err(Violation::new(
+                    "differs-from-sequential",
+                    format!("valid image ({}): load_filtered with a keep-everything filter gives {} but load_mem (sequential build) gives {}", describe(&h), show_outcome(&o), show_outcome(&reference)),
+                ));
+            }
+        }
+    }
     // exhaustive part: every relative completion order of the items whose closures touch the
     // shared state (object-stream containers, streams whose Length lives in an object stream)
     {
